@@ -127,28 +127,27 @@ def run(c, facts, tier):
     g = peg.Grammar(b)
     fb = b.fn_ir(pp.key)
     roles = {}
-    if len(fb["steps"]) == 1 and fb["steps"][0]["pat"]["k"] == "tuple":
-        seq = A.unwrap(fb["steps"][0]["p"])
-        names = [rx.pat_bindings(p)[0] if rx.pat_bindings(p) else None for p in fb["steps"][0]["pat"]["elems"]]
-        if seq["t"] == "seq" and len(seq["items"]) == len(names):
-            for nm, it in zip(names, seq["items"]):
-                n = A.unwrap(it["p"])
-                if n["t"] == "set" and n["cs"][0] == "in":
-                    cs = "".join(sorted(n["cs"][1]))
-                    roles[nm] = {"agou": "who", "+-=": "op", "rwx": "perm"}.get(cs, "?" + cs)
-                    want_rng = (1, None) if cs != "+-=" else (1, 1)
-                    c.ob("C08.algebra", pp.key, "clause part %s = [%s]%s" % (roles[nm], cs, "+" if cs != "+-=" else ""), roles[nm][0] != "?" and (n["min"], n["max"]) == want_rng, "parser element %s range %s..%s" % (peg.cs_show(n["cs"]), n["min"], n["max"]), nontrivial=False)
+    # the three parts of a clause, however they are bound: one tuple step, or one step per part
+    for nm, n in g.bindings(fb).items():
+        n = A.unwrap(n)
+        if n["t"] == "set" and n["cs"][0] == "in":
+            cs = "".join(sorted(n["cs"][1]))
+            roles[nm] = {"agou": "who", "+-=": "op", "rwx": "perm"}.get(cs, "?" + cs)
+            want_rng = (1, None) if cs != "+-=" else (1, 1)
+            c.ob("C08.algebra", pp.key, "clause part %s = [%s]%s" % (roles[nm], cs, "+" if cs != "+-=" else ""), roles[nm][0] != "?" and (n["min"], n["max"]) == want_rng, "parser element %s range %s..%s" % (peg.cs_show(n["cs"]), n["min"], n["max"]), nontrivial=False)
+    order = [roles.get(rx.pat_bindings(p_)[0]) if rx.pat_bindings(p_) else None for st_ in fb["steps"] for p_ in (st_["pat"]["elems"] if st_["pat"]["k"] == "tuple" else [st_["pat"]])]
+    c.ob("C08.algebra", pp.key, "clause parts are parsed in the order who, op, perm", [o for o in order if o] == ["who", "op", "perm"], "order of the clause parts in the parser: %s" % order, nontrivial=False)
     c.ob("C08.algebra", pp.key, "clause = who+ op perm+", sorted(roles.values()) == ["op", "perm", "who"], "roles: %s" % roles)
     # let (target_mode, level_mode) = (from_symbolic_str(target).unwrap(), from_symbolic_str(level).unwrap())
     var_role = {}
     for st in fb["lets"]:
         if st["pat"]["k"] == "tuple" and st["init"]["k"] == "tuple":
             for p, e in zip(st["pat"]["elems"], st["init"]["elems"]):
-                calls = find_all(e, lambda n: n.get("k") == "call" and n["f"]["k"] == "path" and n["f"]["segs"][-1] == "from_symbolic_str")
+                calls = find_all(e, lambda n: n.get("k") == "call" and n["f"]["k"] == "path" and n["f"]["segs"][-1] == fs.name)
                 if calls and rx.var_name(calls[0]["args"][0]) in roles:
                     var_role[rx.pat_bindings(p)[0]] = roles[rx.var_name(calls[0]["args"][0])]
         elif st["pat"]["k"] == "ident":
-            calls = find_all(st["init"], lambda n: n.get("k") == "call" and n["f"]["k"] == "path" and n["f"]["segs"][-1] == "from_symbolic_str")
+            calls = find_all(st["init"], lambda n: n.get("k") == "call" and n["f"]["k"] == "path" and n["f"]["segs"][-1] == fs.name)
             if calls and rx.var_name(calls[0]["args"][0]) in roles:
                 var_role[st["pat"]["name"]] = roles[rx.var_name(calls[0]["args"][0])]
     opname = next((k for k, v in roles.items() if v == "op"), None)
